@@ -14,7 +14,7 @@
    Statements only. *)
 From Coq Require Import String.
 From Coq Require Import ZArith QArith List Bool Arith Permutation Lia.
-From BS Require Import Core.Base Core.GridQ Model.Aod Model.LibMoves Proofs.AodProofs Proofs.AodRoundTrip Proofs.AodSelect Proofs.AodPre Proofs.AodLegs Proofs.LibMovesProofs Model.Arch Model.Builders Proofs.BuilderMoves.
+From BS Require Import Core.Base Core.GridQ Model.Aod Model.LibMoves Proofs.AodProofs Proofs.AodRoundTrip Proofs.AodSelect Proofs.AodPre Proofs.AodLegs Proofs.LibMovesProofs Model.Arch Model.Builders Proofs.BuilderMoves Proofs.WaypointMoves.
 Import ListNotations.
 
 Theorem C08_no_atom_lost_or_duplicated : forall st ps st',
@@ -199,6 +199,21 @@ Example C08_two_legs_example :
   show_sim (sim_paths (mkast T O [] [] []) [leg1; leg2]) = "ok held=0 occ=[1@20/1,0/1,2@30/1,0/1]"%string.
 Proof. vm_compute. split; reflexivity. Qed.
 
+(* move_by_waypoints (Model/LibMoves.v waypoints_model, compared with the implementation on every enumerated call): with pick and drop
+   the played path has the transport shape, whatever the waypoints ... *)
+Theorem C08_waypoints_pick_drop_is_a_transport : forall w0 rest ps,
+  waypoints_model (w0 :: rest) true true = Some ps ->
+  recognise_transport ps = Some (length (fst w0), length (snd w0), w0, rest).
+Proof. exact waypoints_pick_drop_is_a_transport. Qed.
+
+(* ... and a move split over two calls (pick on the first, drop on the second, the second starting where the first ended) glues into
+   the path of ONE call with pick and drop over the concatenated waypoints - to which the transport theorems apply *)
+Theorem C08_waypoints_two_legs_glue : forall w0 r1 u r2 p1 p2,
+  waypoints_model (w0 :: r1) true false = Some [p1] -> waypoints_model (u :: r2) false true = Some [p2] ->
+  same_shape w0 u = true -> wp_eqb (last (w0 :: r1) w0) u = true ->
+  exists m, merge_legs p1 [p2] = Some m /\ waypoints_model (w0 :: r1 ++ r2) true true = Some [m].
+Proof. exact waypoints_two_legs_glue. Qed.
+
 (* ---- the library kernels themselves (Model/LibMoves.v: the played paths as a function of the zone's coordinates and the call's
    index lists; compared with the implementation on every enumerated call, acceptance and paths) ---- *)
 
@@ -344,3 +359,5 @@ Print Assumptions C08_rearrange_documented_call_is_accepted.
 Print Assumptions C08_rearrange_documented_call_delivers.
 Print Assumptions C08_rearrange_on_every_two_column_layout.
 Print Assumptions C08_cz_move_on_every_single_zone_layout.
+Print Assumptions C08_waypoints_pick_drop_is_a_transport.
+Print Assumptions C08_waypoints_two_legs_glue.
